@@ -131,6 +131,26 @@ theorem C11_zero_disables_glob (x : Ext R) (g : GlobCfg) (cnt : Pat → Nat) (hb
     ∃ o, globPatterns x g ps ex = .ok o :=
   glob_ok x g cnt hb ps ex hn hne (Or.inl h0)
 
+/-! ### the budget handed to bracex
+
+  bracex treats `limit=0` as "no limit", so the property's "fails fast instead of being
+  materialised" needs more than the pull count: under a positive limit the `limit` argument of
+  every `bracex.iexpand` call must itself be positive (and never above the call's limit).  The
+  same statement covers all three loops, which share `runPatterns`; for `translate` /
+  `compile_pattern` with `exclude=` it applies to the exclusion call with `L` and to the main loop
+  with `L - len(negative)` — which is where D11 lets a 0 through. -/
+
+theorem C11_brace_budget (x : Ext R) (fl : Flags) {O : Type} (pol : Policy O) (L : Int) (hL : 0 < L)
+    (ps : List Pat) (a : Acc O) :
+    ∀ qa ∈ braceArgs x fl pol L ps L a, 1 ≤ qa.2 ∧ qa.2 ≤ L :=
+  braceArgs_bounds x fl pol L hL ps L a (by omega)
+
+/-- `Glob`: the exclusion list starts from whatever `current_limit` the inclusion list left (≥ 1) -/
+theorem C11_brace_budget_glob_second (x : Ext R) (g : GlobCfg) (hL : 0 < g.limit) (e : List Pat) (cl : Int)
+    (hcl : 1 ≤ cl) (a : Acc (GPN R)) :
+    ∀ qa ∈ braceArgs x g.flags (globPolicy x g true) g.limit e cl a, 1 ≤ qa.2 ∧ qa.2 ≤ cl :=
+  braceArgs_bounds x g.flags _ g.limit hL e cl a hcl
+
 /-! ### defaults (generated from the signatures of every public entry point) -/
 
 theorem C11_defaults : ∀ d ∈ Gen.limitDefaults, d.2 = 1000 := by decide
@@ -181,6 +201,14 @@ theorem D11_zero_witness :
     compilePattern toy bfl 0 (s ["a", "{2}"]) (some (s ["x"])) = .error (.patternLimit, 2) ∧
     (match compilePattern toy bfl 0 (s ["a", "{2}"]) none with | .ok o => o.pos.length == 3 | .error _ => false) = true := by
   decide +kernel
+
+/-- D11 seen at the bracex interface: with `exclude=` the main loop of `compile_pattern` is started
+    with `limit - len(negative) = 0`, and hands bracex the argument 0 = unlimited -/
+theorem D11_brace_budget_witness :
+    braceArgs toy bfl (pnPolicy toy bfl) (3 - 3) (s ["{8}"]) (3 - 3) (coreStart (s ["x", "y", "z"]) 0) =
+      [("{8}".toList, 0)] ∧
+    braceArgs toy bfl (pnPolicy toy bfl) 3 (s ["{3}", "{2}"]) 3 (coreStart [] 0) =
+      [("{3}".toList, 3), ("{2}".toList, 1)] := by decide +kernel
 
 /-- D22: `glob(['a','b','c'], limit=3, exclude=['x','y','z'])` — six patterns, limit 3, no exception -/
 theorem D22_witness :
